@@ -19,6 +19,7 @@ pub mod c39;
 pub mod c41;
 pub mod c42;
 pub mod conv;
+pub mod exchange;
 pub mod gt;
 pub mod lp;
 pub mod lpstake;
@@ -42,7 +43,7 @@ pub const REGISTRY: &[(&str, fn(&mut Ctx))] = &[
     ("C06", lp::run_c06),
     ("C07", perp::run_c07),
     ("C08", lp::run_c08),
-    ("C09", perp::run_c09),
+    ("C09", run_c09_all),
     ("C10", lp::run_c10),
     ("C11", pure::run_c11),
     ("C12", perp::run_c12),
@@ -60,13 +61,15 @@ pub const REGISTRY: &[(&str, fn(&mut Ctx))] = &[
     ("C29", oracle::run_c29),
     ("C30", gt::run_c30),
     ("C31", gt::run_c31),
-    ("C32", c32::run),
+    ("C32", run_c32_all),
     ("C34", c34::run),
     ("C35", c35::run),
     ("C39", c39::run),
     ("C19", c19::run),
     ("C20", c20::run),
     ("C21", revertible::run_c21),
+    ("C22", exchange::run_c22),
+    ("C23", exchange::run_c23),
     ("C33", c33::run),
     ("C38", lpstake::run_c38),
     ("C40", sdkdiff::run_c40),
@@ -74,7 +77,22 @@ pub const REGISTRY: &[(&str, fn(&mut Ctx))] = &[
     ("C36", timelock::run_c36),
     ("C37", treasury::run_c37),
     ("C41", c41::run),
+    ("C44", exchange::run_c44),
+    ("C45", exchange::run_c45),
     ("C42", c42::run),
     ("C43", conv::run_c43),
     ("SMOKE", smoke::run),
 ];
+
+/// C09: model clauses (vmarket histories) + program clauses (liquidate / ADL gating through the real
+/// instructions in the svm-lite exchange world).
+fn run_c09_all(ctx: &mut crate::engine::Ctx) {
+    perp::run_c09(ctx);
+    exchange::run_c09(ctx);
+}
+
+/// C32: fee arithmetic (hook level) + settlement through the real `settle_builder_fee` instruction.
+fn run_c32_all(ctx: &mut crate::engine::Ctx) {
+    c32::run(ctx);
+    exchange::run_c32_settlement(ctx);
+}
